@@ -1594,14 +1594,21 @@ pub fn gen_plan(focus: &str, seed: u64, thorough: bool, pool: &[Pos]) -> EngineP
 }
 
 /// C08: fixed-depth exactness cycles on one engine instance, varied knobs.
-pub fn gen_plan_exact(seed: u64, thorough: bool, pool: &[Pos], mates: &[(Pos, u32)]) -> EnginePlan {
+pub fn gen_plan_exact(seed: u64, thorough: bool, pool: &[Pos], mates: &[(Pos, u32)], imbalanced: &[Pos]) -> EnginePlan {
     let mut rng = Rng::new(seed);
     let knobs = Knobs { poll_interval: *rng.pick(POLL_INTERVALS), tt_capacity: *rng.pick(TT_CAPS) };
     if rng.chance(1, 5) {
         // FEN walk: a shuffling game sent position by position as bare FENs (true clocks and move
         // numbers, no move list): each search starts from a position WITHOUT repetition history,
         // whatever the same engine instance was told or searched before
-        let game = random_game(&mut rng, pool, 14, true);
+        // half of the walks are shuffles P0 a b a' b' a b a' in a materially unbalanced position: an
+        // engine that kept the positions it was told before would see repetitions where, for a
+        // position given as a bare FEN, there are none
+        let shuffle = if rng.chance(1, 2) && !imbalanced.is_empty() { repetition_game(&mut rng, imbalanced) } else { None };
+        let game = match shuffle {
+            Some(g) => g,
+            None => random_game(&mut rng, pool, 14, true),
+        };
         let from = game.line.len().saturating_sub(if thorough { 10 } else { 6 });
         let mut cycles = Vec::new();
         for (k, p) in game.line[from..].iter().enumerate() {
@@ -1669,8 +1676,8 @@ pub fn gen_plan_exact(seed: u64, thorough: bool, pool: &[Pos], mates: &[(Pos, u3
 /// C08 sessions with a disturbed history: "irrespective of what was searched before on the same
 /// engine instance" includes an infinite search that was interrupted while a `position` command
 /// for some other game arrived. The next cycle sets its own position and must be searched exactly.
-pub fn gen_plan_exact_disturbed(seed: u64, thorough: bool, pool: &[Pos], mates: &[(Pos, u32)]) -> EnginePlan {
-    let mut p = gen_plan_exact(seed, thorough, pool, mates);
+pub fn gen_plan_exact_disturbed(seed: u64, thorough: bool, pool: &[Pos], mates: &[(Pos, u32)], imbalanced: &[Pos]) -> EnginePlan {
+    let mut p = gen_plan_exact(seed, thorough, pool, mates, imbalanced);
     let mut rng = Rng::new(seed ^ 0xd157_0b3d);
     if !rng.chance(1, 4) {
         return p;
@@ -1714,8 +1721,8 @@ pub fn gen_plan_exact_disturbed(seed: u64, thorough: bool, pool: &[Pos], mates: 
 }
 
 /// C11: exactness-style sessions (no searchmoves) run on a position and its colour-flipped twin.
-pub fn gen_plan_twin(seed: u64, thorough: bool, pool: &[Pos], mates: &[(Pos, u32)]) -> EnginePlan {
-    let mut p = gen_plan_exact(seed, thorough, pool, mates);
+pub fn gen_plan_twin(seed: u64, thorough: bool, pool: &[Pos], mates: &[(Pos, u32)], imbalanced: &[Pos]) -> EnginePlan {
+    let mut p = gen_plan_exact(seed, thorough, pool, mates, imbalanced);
     let mut rng = Rng::new(seed ^ 0x7717);
     for c in p.cycles.iter_mut() {
         c.go.searchmoves_picks.clear();
